@@ -278,9 +278,8 @@ class TCPPacketGenerator(Device, OutMixIn):
                     f"Sent packet {packet.packet_id} with size {packet.size}, "
                     f"flow_id {packet.flow_id} at time {env.now:.4f}"
                 )
-                assert self.out
-                self.out.put(packet)
-
+                # account for the segment and arm its timer before handing it on:
+                # over a path without delay the acknowledgement comes back inside put()
                 self.next_seq += packet.size
                 self.timers[packet.packet_id] = Timer(
                     env,
@@ -292,6 +291,8 @@ class TCPPacketGenerator(Device, OutMixIn):
                     f"Setting a timer for packet {packet.packet_id} with an "
                     f"RTO of {self.rto:.4f}"
                 )
+                assert self.out
+                self.out.put(packet)
             else:
                 yield self.cwnd_avaialbe.get()
 
